@@ -50,7 +50,7 @@ def execute(script_name, api, chooser, stall=True, rerun=False, gate_points=None
     gate_points = GATE_POINTS if gate_points is None else gate_points
     window = WINDOW_AFTER_STOP if window is None else window
     sched = vthreads.Scheduler(chooser, horizon=HORIZON, max_steps=30000, trace_filter=trace_filter, stall=stall)
-    w = world.World(POP, clock='real', overrides={'sleep_time': 1.0})
+    w = world.World(POP, clock='real', overrides={'sleep_time': 1.0, 'manifest_file_name': None})
     shim = vthreads.ShimThreadingModule(sched, ['requester', 'job', 'clock', 'follower', 'clock2', 'rerun', 'clock3'] +
                                         ['extra%d' % i for i in range(8)])
     shimtime = vthreads.ShimTime(sched)
@@ -110,7 +110,9 @@ def execute(script_name, api, chooser, stall=True, rerun=False, gate_points=None
         job.request_stop = stop_logged
 
     def main():
-        jc = job_control.JobControl()
+        from web import web_app
+        app = web_app.WebApp()                 # settings: manifest_file_name None -> no manifest is read
+        jc = app._jobs
         job = ScriptJob.from_string(SCRIPTS[script_name])
         follower = ScriptJob.from_string(FOLLOWER)
         instrument(job, 'j')
@@ -127,9 +129,7 @@ def execute(script_name, api, chooser, stall=True, rerun=False, gate_points=None
                 elif base_api == 'stop_current':
                     jc.stop_current()
                 else:
-                    jc.clear_queue()
-                    jc.stop_current()
-                    jc.stop_background()
+                    app.stop_all()             # the real web application's stop-all over this controller
                 sched.log('stop-ret', api)
             except vthreads._Unwind:
                 raise
